@@ -268,6 +268,9 @@ type c14facts struct {
 	okInvokesAll   bool     // … for i := range ourPersistedCallbacks { ourPersistedCallbacks[i](err) }
 	mergerBranch   []string
 	cleanupErrKept []string // cleanupSnapshots / cleanupSegments: what happens to an item whose Remove failed
+	mmHandling     []string // persistSnapshot: the tests on the (done, err) result of persistSnapshotMaybeMerge, in order
+	mmTrueReturns  []string // persistSnapshotMaybeMerge: the return statements that say "persisted"
+	mmEquivChecked bool     // … the error of persistSnapshotDirect(equiv) is tested and returned as (false, err)
 }
 
 func extractC14(c *Ctx) c14facts {
@@ -391,6 +394,91 @@ func extractC14(c *Ctx) c14facts {
 		}
 	}
 
+	// persistSnapshot: how the (done, err) pair of persistSnapshotMaybeMerge is consumed
+	psn := idx.Func("Writer.persistSnapshot")
+	pmm := idx.Func("Writer.persistSnapshotMaybeMerge")
+	if psn == nil || pmm == nil {
+		c.Refuse("index: persistSnapshot / persistSnapshotMaybeMerge not found")
+	}
+	retSrc := func(r *ast.ReturnStmt) string {
+		var parts []string
+		for _, e := range r.Results {
+			parts = append(parts, strings.Join(strings.Fields(idx.Src(e)), " "))
+		}
+		return strings.Join(parts, ", ")
+	}
+	found := false
+	ast.Inspect(psn.Body, func(m ast.Node) bool {
+		blk, ok := m.(*ast.BlockStmt)
+		if !ok {
+			return true
+		}
+		for i, st := range blk.List {
+			as, ok := st.(*ast.AssignStmt)
+			if !ok || len(as.Rhs) != 1 || len(as.Lhs) != 2 {
+				continue
+			}
+			call, ok := as.Rhs[0].(*ast.CallExpr)
+			if !ok || !strings.HasSuffix(selName(call.Fun), ".persistSnapshotMaybeMerge") {
+				continue
+			}
+			found = true
+			done, errName := selName(as.Lhs[0]), selName(as.Lhs[1])
+			for _, nx := range blk.List[i+1:] {
+				is, ok := nx.(*ast.IfStmt)
+				if !ok {
+					f.mmHandling = append(f.mmHandling, "other")
+					continue
+				}
+				what := "if-other:" + idx.Src(is.Cond)
+				if be, ok := is.Cond.(*ast.BinaryExpr); ok && be.Op == token.NEQ && selName(be.X) == errName && selName(be.Y) == "nil" {
+					what = "if-err"
+				} else if selName(is.Cond) == done {
+					what = "if-done"
+				}
+				if n := len(is.Body.List); n > 0 {
+					if r, ok := is.Body.List[n-1].(*ast.ReturnStmt); ok {
+						r0 := retSrc(r)
+						if r0 == errName {
+							r0 = "err"
+						}
+						what += ":return " + r0
+					}
+				}
+				f.mmHandling = append(f.mmHandling, what)
+			}
+		}
+		return true
+	})
+	if !found {
+		c.Refuse("persistSnapshot: `done, err := persistSnapshotMaybeMerge(…)` not found")
+	}
+	var walkRet func(n ast.Node)
+	walkRet = func(n ast.Node) {
+		ast.Inspect(n, func(m ast.Node) bool {
+			switch x := m.(type) {
+			case *ast.FuncLit:
+				return false
+			case *ast.ReturnStmt:
+				if len(x.Results) == 2 && selName(x.Results[0]) == "true" {
+					f.mmTrueReturns = append(f.mmTrueReturns, retSrc(x))
+				}
+			}
+			return true
+		})
+	}
+	walkRet(pmm.Body)
+	for _, x := range callsIn(pmm.Body) {
+		if strings.HasSuffix(x.name, ".persistSnapshotDirect") {
+			nx := stmtAfter(pmm.Body, x.pos)
+			if is := errIf(nx); is != nil && len(is.Body.List) > 0 {
+				if r, ok := is.Body.List[len(is.Body.List)-1].(*ast.ReturnStmt); ok && retSrc(r) == "false, err" {
+					f.mmEquivChecked = true
+				}
+			}
+		}
+	}
+
 	// deletion policy: an item whose Remove failed stays listed
 	for _, fn := range []string{"KeepNLatestDeletionPolicy.cleanupSnapshots", "KeepNLatestDeletionPolicy.cleanupSegments"} {
 		fd := idx.Func(fn)
@@ -450,6 +538,9 @@ func writeC14Defs(b *strings.Builder, g c14facts) {
 	fmt.Fprintf(b, "def okPrependsParked : Bool := %s\ndef okResetsParked : Bool := %s\ndef okInvokesAll : Bool := %s\n", leanBool(g.okPrepends), leanBool(g.okResets), leanBool(g.okInvokesAll))
 	fmt.Fprintf(b, "/-- mergerLoop, after planMergeAtSnapshot returned an error -/\ndef mergeErrBranch : List String := %s\n", leanStrs(g.mergerBranch))
 	fmt.Fprintf(b, "/-- cleanupSnapshots / cleanupSegments: an item whose Remove failed -/\ndef cleanupOnRemoveErr : List String := %s\n", leanStrs(g.cleanupErrKept))
+	fmt.Fprintf(b, "/-- persistSnapshot: the tests that follow `done, err := persistSnapshotMaybeMerge(…)`, in statement order -/\ndef maybeMergeHandling : List String := %s\n", leanStrs(g.mmHandling))
+	fmt.Fprintf(b, "/-- persistSnapshotMaybeMerge: its return statements whose first result is `true` -/\ndef maybeMergeTrueReturns : List String := %s\n", leanStrs(g.mmTrueReturns))
+	fmt.Fprintf(b, "/-- … the error of persistSnapshotDirect(equiv) is tested and returned as (false, err) -/\ndef maybeMergeEquivErrReturned : Bool := %s\n", leanBool(g.mmEquivChecked))
 }
 
 func genC14(c *Ctx) {
